@@ -263,6 +263,14 @@ Theorem inert_amounts_cover_every_solver :
 Proof. exact Tie.inert_amounts_cover_every_solver. Qed.
 Print Assumptions inert_amounts_cover_every_solver.
 
+(* reactions(): in every pass of the step loop the reference amounts of the restrictions (initial_moles) are reset
+   to the amounts at the start of that step before the step is solved *)
+Theorem every_step_resets_reference_amounts :
+    call_before "set_initial_moles" "run_reactions" reaction_step_body false = Some true /\
+    calls "run_reactions" reaction_step_body = true.
+Proof. exact Tie.every_step_resets_reference_amounts. Qed.
+Print Assumptions every_step_resets_reference_amounts.
+
 (* the executable checker applied to what the implementation reports is sound for the property *)
 Theorem check_hetero_sound : forall c : hcase, case_ok c = true -> hetero_valid c.
 Proof. exact SpecProofs.case_ok_sound. Qed.
